@@ -93,7 +93,7 @@ func valKind(v Val) string {
 }
 
 func checkC10(c *Ctx) {
-	c.rule = "API driver: every receiver of a 51-value pool (all value types incl. objects, types, library functions, exception, Go value) x every member name extracted from the working tree (+unknown names) x {get, set, call, new, fn, str, dup, cmp, json} x argument tuples (arity 0..1 exhaustive over a 32-value boundary pool, arity 2 exhaustive in thorough, arity 2..4 random; for list / dictionary / text receivers additionally every position and position pair in [-2, length+2]), applied as step sequences on one receiver. Program driver: one- and two-statement Zn programs applying every operator / index / member / call / new / throw / loop form to input variables drawn from the same pools; plus user methods / type methods whose body ends in each of 25 failures (with no handler, a handler without and with 输出) whose call is placed in each of 26 consumer positions. Input-variable driver: texts without any statement (line breaks, comments, imports only), every right-hand-side kind, failing and ill-formed texts through ExecVarInputText. Violation = recovered Go panic, nil element without error, worker exit, or hang. distinct_nontrivial = distinct (receiver kind, step kind, member, arg kinds, outcome kind)"
+	c.rule = "API driver: every receiver of a 51-value pool (all value types incl. objects, types, library functions, exception, Go value) x every member name extracted from the working tree (+unknown names) x {get, set, call, new, fn, str, dup, twin (continue on the copy), cmp, json} x argument tuples (arity 0..1 exhaustive over a 32-value boundary pool, arity 2 exhaustive in thorough, arity 2..4 random; for list / dictionary / text receivers additionally every position and position pair in [-2, length+2]), applied as step sequences on one receiver; plus scripted histories that copy a list / dictionary of 0..9 elements and alternate insertions and removals between the value and its copy, displaying both. Program driver: one- and two-statement Zn programs applying every operator / index / member / call / new / throw / loop form to input variables drawn from the same pools; plus user methods / type methods whose body ends in each of 25 failures (with no handler, a handler without and with 输出) whose call is placed in each of 26 consumer positions. Input-variable driver: texts without any statement (line breaks, comments, imports only), every right-hand-side kind, failing and ill-formed texts through ExecVarInputText. Violation = recovered Go panic, nil element without error, worker exit, or hang. distinct_nontrivial = distinct (receiver kind, step kind, member, arg kinds, outcome kind)"
 	c.assumptions = []string{"library functions run inside the worker's private scratch directory", "member tables are read from /repo sources at check time by a string-literal scan"}
 	rng := c.Rand("c10")
 	members := memberNames()
@@ -178,7 +178,62 @@ func checkC10(c *Ctx) {
 		}
 		// shuffle so that mutations interleave with everything else
 		rng.Shuffle(len(steps), func(i, j int) { steps[i], steps[j] = steps[j], steps[i] })
+		// every chunk starts by copying the receiver and keeps switching between the value and
+		// its copy, displaying both: updates of one must never corrupt the other
+		inter := make([]Step, 0, len(steps)+len(steps)/4+2)
+		for i, st := range steps {
+			if i%(chunk-10) == 0 {
+				inter = append(inter, Step{Kind: "dup"})
+			}
+			inter = append(inter, st)
+			if i%4 == 3 {
+				inter = append(inter, Step{Kind: "twin"})
+			}
+			if i%8 == 7 {
+				inter = append(inter, Step{Kind: "str"})
+			}
+		}
+		steps = inter
 		flush()
+	}
+	// scripted value / copy histories for collections of every small size (slice capacities
+	// differ with the size): structural updates alternate between a value and its copy
+	for n := 0; n <= 9; n++ {
+		keys, vals, items := []string{}, []Val{}, []Val{}
+		for k := 0; k < n; k++ {
+			keys = append(keys, fmt.Sprintf("键%d", k))
+			vals = append(vals, Num(float64(k)))
+			items = append(items, Num(float64(k)))
+		}
+		for variant := 0; variant < 4; variant++ {
+			d := []Step{{Kind: "dup"}}
+			l := []Step{{Kind: "dup"}}
+			tw := Step{Kind: "twin"}
+			show := []Step{{Kind: "str"}, {Kind: "json"}, {Kind: "get", Name: "所有索引"}, {Kind: "get", Name: "所有值"}, {Kind: "get", Name: "长度"}}
+			lshow := []Step{{Kind: "str"}, {Kind: "json"}, {Kind: "get", Name: "长度"}, {Kind: "get", Name: "首项"}, {Kind: "get", Name: "末项"}}
+			w := func(k string) Step { return Step{Kind: "call", Name: "写入", Args: []Val{Text(k), Num(9)}} }
+			rm := func(k string) Step { return Step{Kind: "call", Name: "移除", Args: []Val{Text(k)}} }
+			push := func(m string) Step { return Step{Kind: "call", Name: m, Args: []Val{Num(7)}} }
+			switch variant {
+			case 0: // insert into both
+				d = append(d, w("新甲"), tw, w("新乙"))
+				l = append(l, push("后增"), tw, push("后增"))
+			case 1: // remove from both (different positions)
+				d = append(d, rm("键0"), tw, rm(fmt.Sprintf("键%d", n-1)))
+				l = append(l, Step{Kind: "call", Name: "左移"}, tw, Step{Kind: "call", Name: "右移"})
+			case 2: // remove then insert
+				d = append(d, rm("键1"), tw, w("新丙"), tw, w("新丁"))
+				l = append(l, Step{Kind: "call", Name: "右移"}, tw, push("前增"), tw, push("后增"))
+			case 3: // insert, insert, remove on alternating sides
+				d = append(d, w("新甲"), w("新乙"), tw, rm("键0"), w("新戊"), tw, rm("新甲"))
+				l = append(l, push("后增"), push("后增"), tw, Step{Kind: "call", Name: "左移"}, push("后增"), tw, Step{Kind: "call", Name: "右移"})
+			}
+			d = append(append(append(append(d, show...), tw), show...), tw)
+			l = append(append(append(append(l, lshow...), tw), lshow...), tw)
+			d = append(d, rm("键0"), tw, rm("键1"), tw)
+			d = append(append(append(d, show...), tw), show...)
+			jobs = append(jobs, apiJob{Dict(keys, vals), d}, apiJob{List(items...), l})
+		}
 	}
 	reqs := make([]Req, len(jobs))
 	for i, j := range jobs {
@@ -255,6 +310,9 @@ func checkC10(c *Ctx) {
 		addProg("call0", "以甲（"+m+"）\n（显示：甲）\n", a)
 		addProg("call1", "以甲（"+m+"：乙）\n（显示：甲）\n", a, b)
 		addProg("call1-self", "以甲（"+m+"：甲）\n（显示：甲）\n", a)
+		addProg("call1-wrapself", "以甲（"+m+"：【甲】）\n（显示：甲）\n（显示：（生成JSON：【甲】））\n", a)
+		addProg("call1-wrapself-dict", "以甲（"+m+"：【“k” = 甲】）\n（显示：甲）\n令抄 = 甲\n输出 抄 为 甲\n", a)
+		addProg("call2-wrapself", "以甲（"+m+"：乙、【甲，【甲】】）\n（显示：甲）\n", a, b)
 		addProg("call2", "以甲（"+m+"：乙、丙）\n（显示：甲）\n", a, b, cc)
 		addProg("call2-self", "以甲（"+m+"：甲、乙）\n（显示：甲）\n（显示：甲之文本）\n", a, b)
 		addProg("call3", "以甲（"+m+"：乙、丙、丁）\n（显示：甲）\n", a, b, cc, d)
@@ -279,6 +337,8 @@ func checkC10(c *Ctx) {
 			}
 			addProg("member-get", "输出甲之"+m+"\n", rv)
 			addProg("call1", "以甲（"+m+"：乙）\n（显示：甲）\n", rv, pick())
+			addProg("call1-wrapself", "以甲（"+m+"：【甲】）\n（显示：甲）\n（显示：（生成JSON：【甲】））\n", rv)
+			addProg("call1-wrapself-nested", "令外 = 【“k” = 甲】\n以外#“k”（"+m+"：【外】）\n（显示：外）\n", rv)
 		}
 	}
 	for i := 0; i < c.Pick(3000, 60000); i++ {
